@@ -68,4 +68,5 @@ def run(ctx):
         seq = [g.r.choice(KINDS) for _ in range(g.r.randint(4, 8))]
         worlds.append(make_world('c12r-%d' % i, seq, g.r.choice(OPTS)))
     run_suite(ctx, 'match.shared-config', worlds, known=None, chunk=400)
+    core.race_stress(ctx, 3 if ctx.tier == 'quick' else 25)
     findings.report(ctx, 'C12')
